@@ -215,6 +215,14 @@ func (hc *HookController) UnlockKubernetesEventsFor(monitorID string) {
 	}
 }
 
+// DropSavedKubernetesEventsFor drops events saved by the monitor up to now:
+// they are reflected in objects for the Synchronization that is about to run.
+func (hc *HookController) DropSavedKubernetesEventsFor(monitorID string) {
+	if hc.KubernetesController != nil {
+		hc.KubernetesController.DropSavedEventsFor(monitorID)
+	}
+}
+
 func (hc *HookController) StopMonitors() {
 	if hc.KubernetesController != nil {
 		hc.KubernetesController.StopMonitors()
